@@ -36,6 +36,23 @@ inline bool withinCapacity(const Snap &s, std::string *why = nullptr) {
             if (p.type == 2) for (int v : p.ints) if (v < -32768 || v > 32767) return bad("integer beyond 16 bits");
         }
     }
+    {   // the whole parameter section must fit in 255 blocks
+        size_t bytes = 4;
+        for (auto &g : s.groups) {
+            if (g.name.empty() && g.params.empty()) continue;
+            bytes += 2 + g.name.size() + 2 + 1 + g.desc.size();
+            for (auto &p : g.params) {
+                size_t data = p.type == -1 ? 1 : static_cast<size_t>(p.type);
+                for (auto d : p.dims) data *= d;
+                if (p.dims.empty()) data = 0;
+                bytes += 2 + p.name.size() + 2 + 2 + p.dims.size() + data + 1 + p.desc.size();
+            }
+        }
+        if (bytes + 1 > 255u * 512u) return bad("parameter section larger than 255 blocks");
+    }
+    {   // POINT/ANALOG label tables are addressed with one byte
+        for (auto &g : s.groups) if (g.name == "POINT" || g.name == "ANALOG") for (auto &p : g.params) if (p.type == -1 && p.strs.size() > 255) return bad("more than 255 labels");
+    }
     if (!s.frames.empty()) {
         if (s.frames[0].pts.size() > 255) return bad("more than 255 points");
         size_t sub = s.frames[0].subs.size(), ch = sub ? s.frames[0].subs[0].size() : 0;
